@@ -113,6 +113,9 @@ def analyze(name, info, summaries=None, nonnullable=None, dir_depth=1, ver_depth
                 G.intervals(val, ivs)
                 fact['v1_intervals'] = [(str(a), str(b), k) for a, b, k, _ in ivs][:12]
                 fact['p_out'] = str(p_out)
+            kws = it.env.get('kw_bools', [])
+            fact['kw_called'] = bool(kws)
+            fact['kw_true_on_ok'] = it.model_for(z3.Or(kws)) if (kws and it.feasible(z3.Or(kws))) else None
             nn = it.feasible(p_out == p_in)
             fact['nullable'] = bool(nn)
             fact['eof'] = not it.feasible(p_out != G.TOTAL)
